@@ -133,6 +133,7 @@ type State struct {
 	dead   bool
 	loops  []*loopCtx
 	trace  []string // branch decisions, for diagnostics
+	branch []string // branch conditions (a subset of facts)
 	now    string   // allocation clock
 	ghost  map[string]Val
 }
@@ -166,6 +167,7 @@ func (st *State) clone() *State {
 	}
 	n.loops = append([]*loopCtx(nil), st.loops...)
 	n.trace = append([]string(nil), st.trace...)
+	n.branch = append([]string(nil), st.branch...)
 	return n
 }
 
